@@ -24,12 +24,12 @@ def run(ctx):
     R.floor("validate_config_database", len(vcd), 1)
     if not vcd:
         return R
-    v = vcd[0]
+    v = F.inlined(vcd[0])      # with the gate's private helpers (directory checks, table of rows, record / verify loops) read in place
     # 1. start(): gate first
     st = [x for x in F.fns.values() if x.name.startswith("server::start::start") and x.kind == "coroutine"]
     R.floor("start_body", len(st), 1)
     if st:
-        sf = st[0]
+        sf = F.inlined(st[0])
         cs = {}
         for c in sf.calls():
             if not sf.is_cleanup(c.bb) and c.target_path:
@@ -72,37 +72,67 @@ def run(ctx):
     sets = [c for c in v.calls() if (c.method or "") == "set" and "ConfigDatabase" in (c.self_ty or c.target_path or "") and not v.is_cleanup(c.bb)]
     vals = [c for c in v.calls() if (c.method or "") == "validate" and "ConfigDatabase" in (c.self_ty or c.target_path or "") and not v.is_cleanup(c.bb)]
 
-    def key_of(c):
-        t = origin(v, c.args[1])
+    from terms import subterms
+
+    def rows_of(c):
+        """[(key term, value term)] a set / validate call stands for: itself - or, when it sits in a loop over a literal array of
+        (key, value) pairs (`for (k, v) in entries { db.set(k, v)? }`), one row per array element"""
+        kt, vt = origin(v, c.args[1]), origin(v, c.args[2])
+        def table(t):
+            for x in subterms(t):
+                if x[0] == "agg" and x[1] == "array" and x[2] and all(e[0] == "agg" and e[1] == "tuple" and len(e[2]) == 2 for e in x[2]):
+                    return x
+            return None
+        def col(t):
+            # which tuple component the term takes from the element drawn by next(): the innermost `.0` / `.1` above the `Some.0`
+            comp = None
+            for x in subterms(t):
+                if x[0] == "field" and x[2] in (".0", ".1"):
+                    y = x[1]
+                    while y[0] in ("deref", "ref", "cast"):
+                        y = y[1]
+                    if y[0] == "field" and y[2] == ".0" and y[1][0] == "field" and "Some" in y[1][2]:
+                        comp = int(x[2][1:])
+            return comp
+        ta, tb = table(kt), table(vt)
+        if ta is not None and ta == tb and col(kt) == 0 and col(vt) == 1 and mentions(kt, "next"):
+            return [(e[2][0], e[2][1]) for e in ta[2]]
+        return [(kt, vt)]
+
+    def key_of_term(t):
         for k in KEYS:
             if mentions(t, k):
                 return k
         return show(t)[:60]
 
+    def key_of(c):
+        return key_of_term(origin(v, c.args[1]))
+
     INJECTIVE = ("clone", "to_string", "deref", "as_str", "to_owned", "borrow", "as_ref", "into", "from", "__stability", "initialize", "get", "call_once", "force", "new")
 
-    def val_of(c, key):
+    def val_of(c, key, t=None):
         """the compared / recorded value is the setting itself, reached through value-preserving (injective) wrappers only:
         a normalising function in between (trim, lower-casing, an alias table) makes different settings compare equal"""
-        t = origin(v, c.args[2])
+        t = origin(v, c.args[2]) if t is None else t
         want = KEYS.get(key)
         extra = sorted({x[1].split("::")[-1] for x in calls_in(t) if x[1].split("::")[-1] not in INJECTIVE and not x[1].split("::")[-1].startswith("{")})
         if extra:
             return False, "%s (through %s)" % (show(t)[:70], ", ".join(extra))
         return (want is not None and mentions(t, want)), show(t)[:100]
-    skeys = [key_of(c) for c in sets]
-    vkeys = [key_of(c) for c in vals]
+    skeys = [key_of_term(kt) for c in sets for (kt, _) in rows_of(c)]
+    vkeys = [key_of_term(kt) for c in vals for (kt, _) in rows_of(c)]
     R.ob(sorted(skeys) == sorted(KEYS), "WIRE", v.where(), "WIRE|config|written-keys", "keys written on a fresh directory are %s; expected %s" % (sorted(skeys), sorted(KEYS)),
          sample={"rule": "WIRE", "written": sorted(skeys)})
     R.ob(sorted(vkeys) == sorted(KEYS), "WIRE", v.where(), "WIRE|config|validated-keys", "keys validated on reopen are %s; expected %s" % (sorted(vkeys), sorted(KEYS)),
          sample={"rule": "WIRE", "validated": sorted(vkeys)})
     for c in sets + vals:
-        k = key_of(c)
-        ok, txt = val_of(c, k)
-        kind = "set" if c in sets else "validate"
-        R.ob(ok, "WIRE", c.where(), "WIRE|config|%s:%s" % (kind, k), "%s(%s) uses value `%s`; expected the %s setting" % (kind, k, txt, KEYS.get(k)),
-             sample={"rule": "WIRE", "op": kind, "key": k, "value": txt})
-        R.ob(err_propagated(v, c), "ERR-prop", c.where(), "ERR-prop|config|%s:%s" % (kind, k), "the Result of %s(%s) is dropped" % (kind, k))
+        for (kt, vt) in rows_of(c):
+            k = key_of_term(kt)
+            ok, txt = val_of(c, k, vt)
+            kind = "set" if c in sets else "validate"
+            R.ob(ok, "WIRE", c.where(), "WIRE|config|%s:%s" % (kind, k), "%s(%s) uses value `%s`; expected the %s setting" % (kind, k, txt, KEYS.get(k)),
+                 sample={"rule": "WIRE", "op": kind, "key": k, "value": txt})
+            R.ob(err_propagated(v, c), "ERR-prop", c.where(), "ERR-prop|config|%s:%s" % (kind, k), "the Result of %s(%s) is dropped" % (kind, k))
     # fresh vs reopen branch: sets and validates are on opposite edges of the freshness switch
     fresh_sw = None
     for b in range(len(v.blocks)):
@@ -131,7 +161,11 @@ def run(ctx):
         for c in vals:
             R.ob(not any(x.bb not in v.reachable(fresh_sw) for x in [c]), "DOM-before", c.where(), "DOM-before|config|fresh<validate", "validate not under the freshness decision")
     fl = [c for c in v.calls() if (c.method or "") == "flush" and not v.is_cleanup(c.bb)]
-    R.ob(bool(fl) and all(all(v.sdominates(s.bb, f.bb) for s in sets) for f in fl) and err_propagated(v, fl[0]), "DOM-order", v.where(), "DOM-order|config|flush",
+    # after any write, no successful return without a flush in between (holds for four straight-line writes and for a loop of them)
+    def flushed_after(sc):
+        avoid = set(v.error_blocks()) | {f.bb for f in fl}
+        return not any(rb in v.reachable(sc.bb, avoid=avoid) for rb in v.return_blocks())
+    R.ob(bool(fl) and bool(sets) and all(flushed_after(sc) for sc in sets) and err_propagated(v, fl[0]), "DOM-order", v.where(), "DOM-order|config|flush",
          "the recorded configuration is not flushed after the four writes", sample={"rule": "DOM-order", "first": "4 x set", "then": "flush"})
     # 4. freshness before creation
     rd = [c for c in v.calls() if (c.method or "") == "read_dir" and not v.is_cleanup(c.bb)]
@@ -222,8 +256,8 @@ def run(ctx):
         for c in g.calls():
             if (c.method or "") == "set" and "ConfigDatabase" in (c.self_ty or c.target_path or "") and not g.is_cleanup(c.bb):
                 k = origin(g, c.args[1])
-                if g.id == v.id:
-                    continue
+                if g.id == v.id or F.hosts_of(g) <= {v.name}:
+                    continue        # the gate itself, or a private helper only the gate calls
                 is_cfg = any(mentions(k, kk) for kk in KEYS)
                 R.ob(not is_cfg and mentions(k, "MAX_BLOCK_NUMBER_KEY"), "WHO", c.where(), "WHO|config-set|%s" % g.name,
                      "%s writes config key `%s` outside the start-up gate" % (g.name, show(k)[:60]), sample={"rule": "WHO", "writer": g.name, "key": show(k)[:40]})
